@@ -737,13 +737,17 @@ def generate(bdir=None, repo=None):
     out.append("/-- every assignment to `dirname`, `basename`, `instrument_path` of `struct module_data`: (file, function, field, value) -/")
     out.append("def fieldWrites : List (String × String × String × FieldWrite) := [\n" + ",\n".join(
         "  (%s, %s, %s, %s)" % (lean_str(a), lean_str(b), lean_str(c), d) for a, b, c, d in fw) + "]\n")
+    src = open(os.path.join(repo, "src", "depackers", "depacker.c")).read()
+    mh = re.search(r"headersize\s*<\s*(\d+)\s*\)", src)
+    out.append("/-- `if (headersize < N) return 0;` in libxmp_decrunch: files shorter than N bytes are never unpacked (0 = not found) -/")
+    out.append("def decrunchMinHeader : Nat := %d\n" % (int(mh.group(1)) if mh else 0))
     out.append("/-- number of translation units and function bodies examined -/")
     out.append("def unitsExamined : Nat := %d" % len(units))
     out.append("def functionsExamined : Nat := %d\n" % len(an.fns))
     out.append("end Xmp.Gen.OpenSites\n")
     text = "\n".join(out)
     changed = vlib.write_if_changed(os.path.join(vlib.LEAN, "XmpModel", "Gen", "OpenSites.lean"), text)
-    return {"sites": rows, "wrappers": wrappers, "units": len(units), "functions": len(an.fns), "changed": changed, "field_writes": fw,
+    return {"sites": rows, "wrappers": wrappers, "units": len(units), "functions": len(an.fns), "changed": changed, "field_writes": fw, "min_header": int(mh.group(1)) if mh else 0,
             "tempout": {k: sorted(v) for k, v in an.tempout.items()}}
 
 
